@@ -574,7 +574,7 @@ pub fn run(ctx: &RunCtx) -> Outcome {
         return o;
     }
     // program-level companion: the same discipline observed through captures
-    let p = DiffRef { caps: true, allow_cond: true, cond_focus: false, omit_empty_no: false, only_pos0: false, f1_undisputed: false, free_cond_refs: false };
+    let p = DiffRef { caps: true, allow_cond: true, cond_focus: false, omit_empty_no: false, only_pos0: false, f1_undisputed: false, free_cond_refs: false, ref_style: 0 };
     let pats: Vec<_> = super::product_space(true, if ctx.quick() { 1 } else { 2 }).into_iter().filter(has_commit_construct).collect();
     let texts = crate::gen::texts(&['a', 'b', 'c'], 4);
     let before = o.stats.evaluations;
@@ -585,7 +585,7 @@ pub fn run(ctx: &RunCtx) -> Outcome {
 
 pub fn replay(ctx: &RunCtx, case: &Value) -> Result<Option<Fail>, String> {
     if case.get("ast").is_some() {
-        let p = DiffRef { caps: true, allow_cond: true, cond_focus: false, omit_empty_no: false, only_pos0: false, f1_undisputed: false, free_cond_refs: false };
+        let p = DiffRef { caps: true, allow_cond: true, cond_focus: false, omit_empty_no: false, only_pos0: false, f1_undisputed: false, free_cond_refs: false, ref_style: 0 };
         return replay_pat(ctx, &p, case);
     }
     let ops: Vec<Op> = case.get("ops").and_then(|x| x.as_array()).ok_or("no ops")?.iter().map(op_from).collect::<Option<Vec<_>>>().ok_or("bad op")?;
